@@ -20,7 +20,7 @@ from sim import workloads as W
 from sim import faults as F
 from sim import receivers as R
 
-POOL_QUICK = 320
+POOL_QUICK = 640
 POOL_THOROUGH = 1200
 
 SIMPLE_CFG_STEPS = [
